@@ -88,6 +88,7 @@ pub fn tool(args: &[String]) {
             for _ in 0..5 { let _ = r9::f12pow(&g, &k); }
             println!("sm9 ref f12pow: {:.2} ms", t.elapsed().as_secs_f64() * 200.0);
         }
+        Some("sm9-sk-zero-search") => c17::tool_sk_zero_search(),
         Some("sm9-k1-zero-search") => c10::tool_k1_zero_search(),
         Some("sm2-zero-coord") => tools_sm2::zero_coord_search(16),
         Some("sm2-search") => tools_sm2::search(16, 2, 2),
